@@ -36,6 +36,30 @@ def run(res, tier, seed, replay):
         p = subprocess.Popen([garble] + gflags + ["build"] + flags + ["-o", out, "."], env=env, cwd=proj.dir, stdout=subprocess.PIPE, stderr=subprocess.PIPE)
         procs.append((name, proj, gflags, env, out, p))
         time.sleep(0.3)
+    # late-comers: as soon as the first process has stamped the linker, further builds arrive one after the other while the
+    # processes that queued on the lock are still running (they must neither disturb nor be disturbed)
+    stamp = os.path.join(env_a["GARBLE_CACHE"], "tool", "link.version")
+    late, t0 = [], time.time()
+    while time.time() - t0 < 900 and any(p.poll() is None for *_, p in procs):
+        if os.path.exists(stamp) and len(late) < (6 if tier == "quick" else 16):
+            k = len(late)
+            proj, env = (pa, env_a) if k % 2 == 0 else (pb, env_b)
+            out = os.path.join(proj.dir, "late-%d.bin" % k)
+            sd = "-seed=" + "ABCDEFGHIJKLMNOP"[k] * 10 + "E"
+            lp = subprocess.Popen([garble, sd, "build", "-o", out, "."], env=env, cwd=proj.dir, stdout=subprocess.PIPE, stderr=subprocess.PIPE)
+            late.append((k, proj, sd, out, lp))
+            time.sleep(1.0)
+        else:
+            time.sleep(0.2)
+    for k, proj, sd, out, lp in late:
+        so, se = lp.communicate(timeout=1800)
+        want = b"project A" if proj is pa else b"project B"
+        if lp.returncode != 0:
+            res.violation("late-build-fails", "a build started after the linker was stamped, while builds that queued on the lock were still running, fails (exit %d): %s"
+                          % (lp.returncode, se.decode(errors="replace")[-400:]), {"jobs": [j[0] for j in jobs], "late_comer": k, "seed_flag": sd})
+        elif want not in e2e.run_bin(out)[1]:
+            res.violation("late-build-broken", "a build started after the linker was stamped produces a binary that does not run correctly", {"late_comer": k, "seed_flag": sd})
+    res.cov["late_comers"] = len(late)
     results = {}
     for name, proj, gflags, env, out, p in procs:
         so, se = p.communicate(timeout=1800)
@@ -43,6 +67,38 @@ def run(res, tier, seed, replay):
         if p.returncode != 0:
             res.violation("concurrent-build-fails:" + name, "concurrent build %s fails (exit %d): %s" % (name, p.returncode, se.decode()[-400:]),
                           {"jobs": [j[0] for j in jobs], "job": name})
+    # second phase: everything is compiled now; forget the linker only (the state after a garble or Go upgrade) and start
+    # several link-only builds at the same moment, so that all but one queue on the linker lock; when the first has stamped
+    # the linker, more builds keep arriving while the queued ones are still at work
+    if all(rc == 0 for rc, _ in results.values()):
+        shutil.rmtree(os.path.join(env_a["GARBLE_CACHE"], "tool"), ignore_errors=True)
+        wave = []
+        for k in range(5):
+            proj, env = (pa, env_a) if k % 2 == 0 else (pb, env_b)
+            out = os.path.join(proj.dir, "wave-%d.bin" % k)
+            wave.append((k, proj, out, subprocess.Popen([garble, "build", "-ldflags=-X=main.absent=w%d" % k, "-o", out, "."], env=env, cwd=proj.dir,
+                                                        stdout=subprocess.PIPE, stderr=subprocess.PIPE)))
+        t0, nlate = time.time(), 0
+        while time.time() - t0 < 900 and any(p.poll() is None for *_, p in wave[:5]):
+            if os.path.exists(stamp) and nlate < (8 if tier == "quick" else 30):
+                k = 5 + nlate
+                proj, env = (pa, env_a) if k % 2 == 0 else (pb, env_b)
+                out = os.path.join(proj.dir, "wave-%d.bin" % k)
+                wave.append((k, proj, out, subprocess.Popen([garble, "build", "-ldflags=-X=main.absent=w%d" % k, "-o", out, "."], env=env, cwd=proj.dir,
+                                                            stdout=subprocess.PIPE, stderr=subprocess.PIPE)))
+                nlate += 1
+                time.sleep(0.5)
+            else:
+                time.sleep(0.1)
+        for k, proj, out, wp in wave:
+            so, se = wp.communicate(timeout=1800)
+            want = b"project A" if proj is pa else b"project B"
+            if wp.returncode != 0:
+                res.violation("linkerless-wave-fails", "with the packages cached and no patched linker, 5 builds started together plus builds arriving after the linker was stamped: "
+                              "build #%d fails (exit %d): %s" % (k, wp.returncode, se.decode(errors="replace")[-300:]), {"wave": len(wave), "build": k})
+            elif want not in e2e.run_bin(out)[1]:
+                res.violation("linkerless-wave-broken", "build #%d of the linker-less wave produces a binary that does not run correctly" % k, {"wave": len(wave), "build": k})
+        res.cov["linkerless_wave_builds"] = len(wave)
     # solo reference builds afterwards, each from its own fresh caches
     solo = e2e.Caches("c17solo")   # the references are built one after the other, never concurrently
     refs = {}
